@@ -83,4 +83,20 @@ example :
     let ev : Visit Unit → List (List Name) → EvalOut × List (List Name) := fun v s => (⟨false, false, 0⟩, s ++ [v.ent.rpath])
     (refRoot c ev t ⟨[], 0, 0⟩).2.st = [[], [[97]], [[98]]] := by decide
 
+/-- **`-depth` changes the order, never the set.**  For every tree (sibling names distinct), depth
+    range and follow mode, what the real walk evaluates in post-order is a permutation of what it
+    evaluates in pre-order: the same in-range reachable entries, each once (with
+    `C02_exactly_once`: both lists are duplicate-free). -/
+theorem C02_depth_same_entries (c : RefCfg) (root : Node α) (hd : distinctN root) :
+    (processRoot { c with depthFirst := true } logEv root []).st.Perm
+      (processRoot { c with depthFirst := false } logEv root []).st := by
+  rw [(C02_exactly_once _ root hd).1, (C02_exactly_once _ root hd).1]
+  exact pathsN_order_perm { c with depthFirst := false } { c with depthFirst := true } rfl rfl rfl [] 0 root
+
+/-- non-vacuity: the two orders on a two-level tree (reference side, kernel evaluation) -/
+example :
+    let t : Node Unit := .dir [116] false true () [.leaf [97] .plain (), .dir [98] false true () [.leaf [99] .plain ()]]
+    pathsN ⟨true, 0, 5, .never⟩ [] 0 t = [[[97]], [[99], [98]], [[98]], []] ∧
+      pathsN ⟨false, 0, 5, .never⟩ [] 0 t = [[], [[97]], [[98]], [[99], [98]]] := by decide
+
 end FuModel.Find.Walk
